@@ -1418,3 +1418,60 @@ Proof.
       destruct (remove_one_in m b Hin) as [b' E]. rewrite E. apply IH.
       apply remove_one_perm in E. eapply Permutation_cons_inv. eapply perm_trans; [exact H | exact E].
 Qed.
+
+(* ---- modifiers, bounds, inheritance clauses: the headers of the declarations *)
+Lemma visit_field_lem : forall name ft fin co ov cs s,
+  children_res (visit (PN (KField name ft fin co ov) cs) s) =
+  (T (if co then "open " else "") ++ T (if ov then "override " else "") ++
+   T (if fin then "val " else "var ") ++ [Decl DField name] ++ T ": " ++ T (type_name ft))
+  :: children_res s.
+Proof. intros. rewrite visit_pure, pp_unfold. reflexivity. Qed.
+
+Lemma visit_type_param_lem : forall name v b cs s,
+  children_res (visit (PN (KTypeParam name v b) cs) s) =
+  (T (variance_str v) ++ T (if Nat.eqb v 0 then "" else " ") ++ [Decl DTypeParam name] ++ T ": " ++
+   T (match b with Some t => type_name t | None => "Any" end))
+  :: children_res s.
+Proof. intros. rewrite visit_pure, pp_unfold. reflexivity. Qed.
+
+Lemma visit_class_lem : forall name ct fin nf ns nfn cs s,
+  exists cr,
+    children_res (visit (PN (KClass name ct fin nf ns nfn) cs) s) =
+    class_text name ct fin nf ns nfn (sam_decl (context s) name) (ident s) cr :: children_res s.
+Proof.
+  intros. rewrite visit_pure, pp_unfold. unfold pp_node.
+  match goal with |- context [pp_children pp cs ?E] => destruct (pp_children pp cs E) as [cr j] end.
+  exists cr. reflexivity.
+Qed.
+
+(* class header: modifiers, name, type parameters, constructor fields, supertypes, members *)
+Lemma class_text_spec : forall name ct fin nf ns nfn sam old cr,
+  class_text name ct fin nf ns nfn sam old cr =
+  let fields := firstn nf cr in
+  let supers := firstn ns (skipn nf cr) in
+  let funcs := firstn nfn (skipn (nf + ns) cr) in
+  let tparams := joins (T ", ") (skipn (nf + ns + nfn) cr) in
+  (T (spaces old) ++ T (if sam then "fun " else "") ++
+   T (if negb fin && negb (Nat.eqb ct 1) && negb sam then "open " else "") ++
+   T (if sam then "interface" else class_prefix ct) ++ T " " ++ [Decl DClass name]) ++
+  (if negb (segs_empty tparams) then T "<" ++ tparams ++ T ">" else []) ++
+  (if nonempty fields then paren (joins (T ", ") fields) else []) ++
+  (if nonempty supers then T ": " ++ joins (T ", ") supers else []) ++
+  (if nonempty funcs
+   then T " " ++ brace (T nl ++ joins (T (nl ++ nl)%string) funcs ++ T nl ++ T (spaces old))
+   else []).
+Proof.
+  intros. unfold class_text. cbv zeta.
+  destruct (nonempty (firstn nfn _)), (nonempty (firstn ns _)), (nonempty (firstn nf cr)),
+    (negb (segs_empty _)); rewrite <- ?app_assoc, ?app_nil_r; reflexivity.
+Qed.
+
+(* function header: open iff not final, override iff override, abstract iff no body *)
+Lemma func_decl_head_lem : forall name rt inf fin ov hb np ntp ie old cr,
+  exists rest,
+    func_decl_text name rt inf fin ov hb np ntp ie old cr =
+    T (spaces old) ++ T (if fin then "" else "open ") ++ T (if ov then "override " else "") ++
+    T (if hb then "" else "abstract ") ++ T "fun " ++ rest.
+Proof.
+  intros. unfold func_decl_text. cbv zeta. destruct (negb (segs_empty _)); rewrite <- !app_assoc; eexists; reflexivity.
+Qed.
